@@ -93,11 +93,27 @@ def load_known():
 
 
 def match_known(pid, function, info):
+    """A known finding suppresses only the specific failure it describes: same property and function, and either the
+    exact failing arguments (match_args) or the failure signature (match: failed / clause_contains / arg_prefix)."""
     for k in load_known():
         if k.get("status") != "known" or k.get("property") != pid or k.get("function") != function:
             continue
-        want = k.get("match_args")
-        if want is None or (info and info.get("args") == want):
+        if "match_args" in k:
+            if info and info.get("args") == k["match_args"]:
+                return k
+            continue
+        m = k.get("match")
+        if m is None or info is None:
+            continue
+        if m.get("failed") and info.get("failed") != m["failed"]:
+            continue
+        if m.get("clause_contains") and m["clause_contains"] not in str(info.get("clause", "")):
+            continue
+        ok = True
+        for arg, prefix in m.get("arg_prefix", {}).items():
+            if not str((info.get("args") or {}).get(arg, "")).startswith(prefix):
+                ok = False
+        if ok:
             return k
     return None
 
@@ -143,8 +159,8 @@ def triage(res: Result, rep, budget_cases=4000):
                         break
                 if reproduced:
                     break
-    if c is None and reproduced is None:
-        # engine reports (no single function contract): module-provided replayers turn the obligation into a concrete input
+    if reproduced is None:
+        # engine reports / abstract-sort contracts (no single function contract): module-provided replayers turn the obligation into a concrete input
         for mod in load_modules().values():
             for prefix, fn in getattr(mod, "REPLAYERS", {}).items():
                 if rep.key.startswith(prefix):
@@ -257,7 +273,9 @@ def run_canaries(res: Result, mods):
                     reps = mod.ENGINE_CHECKS[can["engine_check"]]()
                 else:
                     reps = [api.verify(api.REGISTRY[can["function"]])]
-                killed = any(o.status == "failed" for r in reps for o in r.obligations) or any(r.status == "failed" for r in reps)
+                # killed = the change does not verify any more (failed / undecided obligation, or the function left the
+                # verified fragment, in which case the bounded stand-in would have to decide)
+                killed = any(o.status != "proved" for r in reps for o in r.obligations) or any(r.status != "proved" for r in reps)
             finally:
                 del api.SOURCE_OVERRIDES[can["file"]]
             if killed:
@@ -291,11 +309,12 @@ def run_property(pid, tier="quick", seed=0, jobs=None, level="proof", replay=Non
     for s in res.standins:
         for info in s["_fails"]:
             key = s["function"]
-            if any(v["function"] == key for v in res.violations) or any(k["function"] == key for k in res.known):
-                continue
             k = match_known(pid, key, info)
             if k:
-                res.known.append(dict(function=key, what=k.get("description", ""), obligation=info.get("failed")))
+                if not any(x["what"] == k.get("description", "") for x in res.known):
+                    res.known.append(dict(function=key, what=k.get("description", ""), obligation=info.get("failed")))
+                continue
+            if any(v["function"] == key for v in res.violations):
                 continue
             rep = next((r for r in reports if r.key == key), None)
             if rep is not None and rep.status == "proved":
